@@ -86,8 +86,7 @@ class FormulaParser(Parser):
             elif isinstance(p[3], error.XLError):
                 p[0] = p[3]
             else:
-                # a blank operand joins as nothing
-                p[0] = ''.join('' if v is None else str(v) for v in (p[1], p[3]))
+                p[0] = ''.join(operators.text_of(v) for v in (p[1], p[3]))
         else:
             p[0] = operators.evaluate_arithmetic(p[2], p[1], p[3])
 
